@@ -95,7 +95,7 @@ fn inner(prop: &str, mut t: Tape, rep: &mut WorldReport) {
             pp.cost_models[v] = t.chance(1, 2);
         }
     }
-    let max_rounds = *t.pick(&[3usize, 0, 5, 10]);
+    let max_rounds = *t.pick(&[3usize, 0, 5, 10, 3, 5, usize::MAX, 1 << 62]);
     let rich_directives = profile == Profile::Rich && t.chance(1, 3);
     let program = gen_program(
         &mut t,
@@ -312,7 +312,7 @@ fn run_e2e(
             "C14",
             "P3-hang",
             "resolve_tx-runs-past-its-round-cap",
-            format!("{ctx}: resolve_tx asked for compile round {} although max_optimize_rounds = {max_rounds} allows at most {}", comp.compiles, max_rounds.max(3) + 2),
+            format!("{ctx}: resolve_tx asked for compile round {} although max_optimize_rounds = {max_rounds} allows at most {}", comp.compiles, max_rounds.max(3).saturating_add(2)),
         );
     }
     sig.str(&res.outcome.kind().chars().take(24).collect::<String>());
@@ -377,7 +377,10 @@ fn run_e2e(
             json!({"outcome": res.outcome.kind(), "rounds": res.rounds.len()})
         }
         Outcome::Hung(s) => {
-            rep.violate("C14", "P3-hang", "resolve_tx", format!("{ctx}: {s}"));
+            // with a round cap of 2^62 or usize::MAX the caller has in effect asked for no cap: a
+            // template without a fee fixed point (the listed C05 finding) then never stops
+            let shape = if max_rounds >= (1usize << 32) { "no-fixed-point-under-an-unbounded-round-cap" } else { "resolve_tx" };
+            rep.violate("C14", "P3-hang", shape, format!("{ctx}: {s}"));
             json!({"outcome": "Hung"})
         }
         Outcome::Ok(c) => {
@@ -428,7 +431,7 @@ fn run_e2e(
                     ""
                 };
                 check_balance(rep, &d, &served, hint, ctx);
-                check_echo(rep, program, txspec, args, &d, ctx);
+                check_echo(rep, program, txspec, args, &d, pp, ctx);
                 if !extreme {
                     if let Some(last) = res.rounds.iter().rev().find(|r| r.out.is_ok()) {
                         check_echo_outputs(rep, program, txspec, args, &d, &bindings_of(&last.tir), ctx);
@@ -482,6 +485,7 @@ fn run_e2e(
                                 address: o.address.clone(),
                                 value: v,
                                 datum: None,
+                                script: None,
                             },
                         );
                     }
@@ -952,7 +956,7 @@ fn inner_examples(world_no: u64, mut t: Tape, rep: &mut WorldReport) {
             pp.cost_models[v] = t.chance(1, 2);
         }
     }
-    let max_rounds = *t.pick(&[3usize, 0, 5, 10]);
+    let max_rounds = *t.pick(&[3usize, 0, 5, 10, 3, usize::MAX]);
     let (faults, stratum) = draw_faults(&mut t, "C14");
 
     // ---- ledger: UTxOs at a few addresses, with tokens and datums of several shapes
@@ -1067,7 +1071,12 @@ fn inner_examples(world_no: u64, mut t: Tape, rep: &mut WorldReport) {
         }
         match &res.outcome {
             Outcome::Panic(p) => panic_violation(rep, p, &ctx),
-            Outcome::Hung(s) => rep.violate("C14", "P3-hang", "resolve_tx", format!("{ctx}: {s}")),
+            Outcome::Hung(s) => rep.violate(
+                "C14",
+                "P3-hang",
+                if max_rounds >= (1usize << 32) { "no-fixed-point-under-an-unbounded-round-cap" } else { "resolve_tx" },
+                format!("{ctx}: {s}"),
+            ),
             _ => {}
         }
         outcomes.push(res.outcome.kind());
